@@ -190,6 +190,11 @@ impl Report {
                 }
                 None => {
                     unknown += 1;
+                    if unknown > 200 {
+                        // enough witnesses written out; the rest is counted in the evidence file
+                        vio_summ.push(json!({"sig": sig, "count": v.count}));
+                        continue;
+                    }
                     let _ = std::fs::create_dir_all(&rdir);
                     let mut h = std::collections::hash_map::DefaultHasher::new();
                     std::hash::Hash::hash(sig, &mut h);
@@ -205,6 +210,9 @@ impl Report {
                     vio_summ.push(json!({"sig": sig, "replay": path.display().to_string(), "count": v.count}));
                 }
             }
+        }
+        if unknown > 200 {
+            println!("({} further violation signatures were counted but not written out)", unknown - 200);
         }
         for (id, (what, n)) in &known_hit {
             println!("KNOWN-FINDING: property={} {} {} (reproduced {} times)", self.property, id, what, n);
